@@ -180,29 +180,36 @@ def scan_items(toks, features):
 
 
 class Macro:
-    def __init__(self, name, matcher, body):
+    def __init__(self, name, arms):
         self.name = name
-        self.matcher = matcher
-        self.body = body
+        self.arms = arms            # [(matcher tokens, body tokens)] in source order
+        self.matcher, self.body = arms[0]
 
 
 def parse_macro(toks, open_i, close_i, name):
-    """Single-arm macro_rules!: { (matcher) => { body } }"""
+    """macro_rules!: { (matcher) => { body } ; ... } -- the arms in source order (the first arm whose matcher
+    accepts an invocation is the one transcribed, as in rustc)"""
     inner = toks[open_i + 1:close_i]
-    if not (inner and inner[0].kind == "punct" and inner[0].text in OPEN):
+    arms = []
+    k = 0
+    while k < len(inner):
+        if is_p(inner[k], ";"):
+            k += 1
+            continue
+        if not (inner[k].kind == "punct" and inner[k].text in OPEN):
+            raise AnchorError("macro %s: unsupported shape" % name)
+        mclose = match_close(inner, k)
+        matcher = inner[k + 1:mclose]
+        k = mclose + 1
+        if not (k + 1 < len(inner) and is_p(inner[k], "=") and is_p(inner[k + 1], ">")):
+            raise AnchorError("macro %s: expected =>" % name)
+        k += 2
+        bclose = match_close(inner, k)
+        arms.append((matcher, inner[k + 1:bclose]))
+        k = bclose + 1
+    if not arms:
         raise AnchorError("macro %s: unsupported shape" % name)
-    mclose = match_close(inner, 0)
-    matcher = inner[1:mclose]
-    k = mclose + 1
-    if not (is_p(inner[k], "=") and is_p(inner[k + 1], ">")):
-        raise AnchorError("macro %s: expected =>" % name)
-    k += 2
-    bclose = match_close(inner, k)
-    rest = [t for t in inner[bclose + 1:] if not is_p(t, ";")]
-    if rest:
-        raise AnchorError("macro %s: more than one arm is not supported" % name)
-    body = inner[k + 1:bclose]
-    return Macro(name, matcher, body)
+    return Macro(name, arms)
 
 
 def _parse_matcher(m):
@@ -391,10 +398,15 @@ def expand(macro, args):
     """Transcribe a single-arm macro_rules! for the given invocation tokens.
     Identifiers bound by `let` in the macro body are renamed (suffix `_m`) when
     the same identifier occurs in an argument: macro_rules hygiene."""
-    pattern = _parse_matcher(macro.matcher)
-    binds = {}
-    pos = _match(pattern, args, 0, binds)
-    if pos is None or pos != len(args):
+    binds = None
+    for (matcher, body) in macro.arms:
+        b0 = {}
+        pos = _match(_parse_matcher(matcher), args, 0, b0)
+        if pos is not None and pos == len(args):
+            binds = b0
+            macro = Macro(macro.name, [(matcher, body)])
+            break
+    if binds is None:
         raise AnchorError("macro %s: invocation does not match its matcher" % macro.name)
     def _flat(v):
         if isinstance(v, RepBind):
